@@ -13,6 +13,7 @@ import functools
 
 from ._files import PseudoNetCDFFile
 from ._variables import PseudoNetCDFMaskedVariable, PseudoNetCDFVariable
+from ._variables import _plainarray
 
 # Functions to be available for pncexpr
 from .. import userfuncs
@@ -554,6 +555,9 @@ def _getfunc(a, func):
     Get an approriate function that takes one optional keyword (axis)
     """
     if not hasattr(func, '__call__'):
+        # on the plain array: a variable attribute may have the name of the
+        # reducer (max = 5.)
+        a = _plainarray(a)
         if hasattr(a, func):
             outfunc = getattr(a, func)
         elif isinstance(a, np.ma.MaskedArray):
